@@ -176,7 +176,43 @@ _free_token = st.one_of(
     st.builds(lambda ty, n, ns, a: _tag(ty, n, ns, a), st.sampled_from(["StartTag", "StartTag", "EndTag", "EndTag", "EmptyTag"]), _name, _ns, _attrs),
     _other)
 _free_stream = st.lists(_free_token, min_size=1, max_size=8)
-_stream = st.one_of(_tree_stream(), _tree_stream(), _free_stream)
+# longer runs of sibling elements from a small vocabulary: the same (token, next) situation recurs within one stream with
+# different predecessors (state carried from one decision to the next inside the filter shows up only here)
+_SIB = ["tbody", "thead", "tfoot", "tr", "td", "th", "colgroup", "li", "p", "option", "optgroup", "dt", "dd", "rt", "rp", "caption", "div"]
+
+
+@st.composite
+def _sibling_run(draw):
+    out = []
+    n = draw(st.integers(3, 9))
+    for _ in range(n):
+        name = draw(st.sampled_from(_SIB))
+        attrs = draw(st.sampled_from([[], [], [], [["a", "1"]]]))
+        out.append(_tag("StartTag", name, None, attrs))
+        k = draw(st.integers(0, 5))
+        if k <= 1:
+            inner = draw(st.sampled_from(["tr", "td", "li", "col", "option", "p", "span"]))
+            if inner == "col":
+                out.append(_tag("EmptyTag", "col"))
+            else:
+                out.append(_tag("StartTag", inner))
+                if draw(st.booleans()):
+                    out.append({"type": "Characters", "data": "x"})
+                out.append(_tag("EndTag", inner))
+        elif k == 2:
+            out.append({"type": "Characters", "data": "x"})
+        elif k == 3:
+            out.append({"type": "SpaceCharacters", "data": " "})
+        out.append(_tag("EndTag", name))
+        if draw(st.integers(0, 7)) == 0:
+            out.append(draw(st.sampled_from([{"type": "SpaceCharacters", "data": " "}, {"type": "Comment", "data": "c"}])))
+    wrap = draw(st.sampled_from(["table", "ul", "select", "dl", "div", None]))
+    if wrap:
+        out = [_tag("StartTag", wrap)] + out + [_tag("EndTag", wrap)]
+    return out
+
+
+_stream = st.one_of(_tree_stream(), _tree_stream(), _free_stream, _sibling_run(), _sibling_run())
 
 
 def _alphabet():
